@@ -81,7 +81,7 @@ class Budget:
 
 
 def add_case(s: Stream, hname: str, H: np.ndarray, syn: np.ndarray, desc, tag, budget: Budget,
-             full=True):
+             full=True, from_error=True):
     div = diverges(H, syn)
     if div:
         if budget.div <= 0:
@@ -94,8 +94,34 @@ def add_case(s: Stream, hname: str, H: np.ndarray, syn: np.ndarray, desc, tag, b
               tag=tag + ':diverges')
     else:
         op = 'uf.trace' if full else 'uf.decode'
-        s.add(f'{op} ${hname} {vec(syn)} {r["sched"]}', r['trace'], desc,
+        impl = r['trace']
+        # the proved statement, observed on the implementation: on a closed graph the answer to the
+        # syndrome of an error has that syndrome (Properties/C05UnionFind.uf_decode_total)
+        if from_error and classify(H) == 'closed':
+            res = r['result']
+            ok = res.startswith('X:') and np.array_equal(
+                (H.astype(int) @ np.array([int(ch) for ch in res[2:]], dtype=int)) % 2, syn.astype(int) % 2)
+            if not ok:
+                impl += ' IMPLEMENTATION-CONTRADICTS-uf_decode_total'
+        s.add(f'{op} ${hname} {vec(syn)} {r["sched"]}', impl, desc,
               nontrivial=bool(np.any(syn)), tag=tag)
+
+
+def classify(H: np.ndarray) -> str:
+    """independent (numpy) evaluation of the hypotheses of Properties/C05UnionFind.lean:
+    'closed' (0/1, columns of weight 0 or 2, no two rows sharing two columns), 'graphlike'
+    (columns of weight <= 2), 'none'"""
+    H = np.asarray(H).astype(int)
+    if H.size and not np.all((H == 0) | (H == 1)):
+        return 'none'
+    w = H.sum(axis=0) if H.size else np.zeros(H.shape[1], dtype=int)
+    if np.any(w > 2):
+        return 'none'
+    G = H @ H.T
+    np.fill_diagonal(G, 0)
+    if np.any(G > 1):
+        return 'none'
+    return 'closed' if not np.any(w == 1) else 'graphlike'
 
 
 def make(name, size):
@@ -159,6 +185,29 @@ def streams(ctx) -> List[Stream]:
                              f'{cname}', budget)
     out.append(s.run())
 
+    # --- which lattices satisfy the hypotheses of the theorems (closedGraph / graphLike), evaluated by the
+    #     compiled model and independently here; the expected class per family is part of the claim:
+    #     Toric2DCode with both sides >= 3 is a closed graph in both sectors (UnionFindDecoder.allowed_codes),
+    #     a side of length 2 gives parallel edges (known finding), planar codes have dangling edges
+    s = Stream('uf-internals-hypothesis-classes')
+    sizes = {'Toric2DCode': [(2, 2), (2, 3), (3, 2), (3, 3), (3, 4), (4, 4), (5, 3), (2, 5), (6, 6), (7, 4)]
+             + ([(8, 8), (9, 5), (10, 10)] if thorough else []),
+             'Planar2DCode': [(2, 2), (3, 3), (4, 3)], 'RotatedPlanar2DCode': [(3, 3), (4, 4), (3, 5)],
+             'Toric3DCode': [(2, 2, 2), (3, 3, 3)]}
+    for cname, szs in sizes.items():
+        for size in szs:
+            code = make(cname, size)
+            for sec, H in sectors(code):
+                cls = classify(H)
+                if cname == 'Toric2DCode':
+                    expect = 'closed' if min(size) >= 3 else 'none'
+                    if cls != expect:     # the claim about the allowed lattices no longer holds
+                        cls = f'{cls} (expected {expect} for {cname}{size})'
+                s.add(f'uf.class {stack(H.tolist())}', cls,
+                      {'code': cname, 'size': list(size), 'sector': sec}, nontrivial=True,
+                      tag=f'{cname}:{cls}')
+    out.append(s.run())
+
     # --- arbitrary small matrices: simple graphs, parallel edges, dangling edges (weight-1 columns),
     #     empty columns, hyperedges; syndromes of errors and (1 in 7) arbitrary syndromes
     s = Stream('uf-internals-random-matrices')
@@ -181,7 +230,9 @@ def streams(ctx) -> List[Stream]:
                 break
         hname = f'M{t}'
         s.add(f'set {hname} {stack(H.tolist())}', 'ok', nontrivial=False)
+        s.add(f'uf.class ${hname}', classify(H), {'H': H.tolist()}, nontrivial=False)
         add_case(s, hname, H, syn, {'H': H.tolist(), 'syndrome': [int(x) for x in syn]},
-                 ['weight2-columns', 'weight<=2-columns', 'hyperedges'][mode], budget)
+                 ['weight2-columns', 'weight<=2-columns', 'hyperedges'][mode], budget,
+                 from_error=(t % 7 != 0))
     out.append(s.run())
     return out
